@@ -15,7 +15,7 @@ def spec(tier, seed):
                           bounds=f"N={n}, buckets={b} (all 24 pairs N<=4, B<=6 are instantiated; quick runs 6 of them), partitions <= {P['PMAX']}, rf <= {P['RMAX']}; unwind {P['UNW']}",
                           timeout_s=600 if q else 1800, tiers=("quick", "thorough") if q else ("thorough",)))
     hs.append(Harness("topo_vacuity_witness", expect_fail=True, obligation="twin", timeout_s=300))
-    u = Unit("topo", _topo.generate, hs, jobs=4, workers=3)
+    u = Unit("topo", _topo.generate, hs, jobs=4, workers=3, quick_extra=2)
     def native_replay(rp, workroot):
         from engine.core import replay_bin
         return replay_bin("c13", [], crate="replay-cluster")
